@@ -82,7 +82,7 @@ def _(u):
     u.canary("reward.sign", r.at(b) == want.at(b))
 
 
-@unit("smtwtp.rowlocal.step", file=F, func="SMTWTPEnv._step", props=("C04",))
+@unit("smtwtp.rowlocal.step", file=F, func="SMTWTPEnv._step", props=("C04", "C14"))
 def _(u):
     J = u.dim("J")
 
@@ -93,7 +93,7 @@ def _(u):
     rowlocal(u, "step", lambda u, B: state(u, B, J), lambda u, td: u.run(F, "SMTWTPEnv._step", td), requires=req)
 
 
-@unit("smtwtp.rowlocal.reward", file=F, func="SMTWTPEnv._get_reward", props=("C04",))
+@unit("smtwtp.rowlocal.reward", file=F, func="SMTWTPEnv._get_reward", props=("C04", "C14"))
 def _(u):
     J, T = u.dims("J T")
     env = u.obj(F, "SMTWTPEnv")
